@@ -116,16 +116,14 @@ Example split_ex :
   combine_outcomes [OFailed; OOk] = OFailed /\ combine_outcomes [OOk; OOk] = OOk.
 Proof. vm_compute. repeat split; reflexivity. Qed.
 
-(* block_on_overflow: the hypothesis of pq_parked_start_changes_nothing is reachable (finding C01-RECOVERY-BLOCKS):
-   capacity 2, request 1 in flight, queue refilled with 2 and 3 — Start parks; with block_on_overflow off the same
-   store is recovered (the re-put is refused and kept) *)
+(* block_on_overflow: capacity 2, request 1 in flight, queue refilled with 2 and 3 — since the repair the recovery
+   completes (the re-put is refused and kept, exactly as without block_on_overflow) and drains deliver everything *)
 Definition cfg2b := mkCfg 2 true true.
-Example parked_ex :
+Example blocking_config_recovers :
   let st := fst (run_history cfg2b store0 h_refill) in
-  run_act None st (initClient cfg2b) = (st, None, None) /\
-  snd (run_act None st (initClient cfg2)) <> None /\
-  durable_or_finalb st (snd (run_history cfg2b store0 h_refill)) = true.
-Proof. vm_compute. repeat split; try reflexivity. discriminate. Qed.
+  snd (run_act None st (initClient cfg2b)) <> None /\
+  fits cfg2b /\ all_final cfg2b (h_refill ++ drains 3 3) = true.
+Proof. split; [vm_compute; discriminate|]. split; [intros r; unfold sizeof; cbn; lia|vm_compute; reflexivity]. Qed.
 
 (* an Offer that would wait returns ROfferWait and changes nothing *)
 Example offer_wait_ex :
